@@ -6,7 +6,7 @@ import re
 import vlib
 
 LEVEL = "model_checking"
-PLAIN = set("&<>\"'amp;#ltgquosx0123456789cCeE ")
+PLAIN = set("&<>\"'amp;#ltgquosx0123456789cCeE bdfABDF")         # = TextOps!PlainTable (checked at start-up)
 
 
 def _tu():
@@ -96,6 +96,40 @@ def dur_event(tu, sec, ms):
     return {"k": "dur", "sec": sec, "ms": ms, "p": lex_duration(t_s), "same": (t_ms == t_s == t_s2), "raw": [t_s, t_ms]}
 
 
+def dur_event_us(tu, sec, us):
+    """a duration that is not a whole number of milliseconds (us: microseconds 0..999999, kept 50 us away from every rounding tie)"""
+    total = sec + us / 1e6
+    try:
+        t_s = tu.format_hms(total)
+        t_ms = tu.format_hms(total * 1000.0, True)
+    except Exception as ex:  # pylint: disable=broad-except
+        return {"k": "dur", "sec": sec, "ms": us // 1000, "us": us, "p": lex_duration(None), "same": False, "raw": "raised " + type(ex).__name__}
+    return {"k": "dur", "sec": sec, "ms": us // 1000, "us": us, "p": lex_duration(t_s), "same": t_ms == t_s, "raw": [t_s, t_ms]}
+
+
+def alt_escapers():
+    """other CORRECT escapers (numeric references, also for characters the parser would otherwise normalise): the specification must accept them.
+    A soundness self-test of TextOps!Unesc / JudgeEscape - a rejection here is a machinery error, never a violation."""
+    named = {"&": "&amp;", "<": "&lt;", ">": "&gt;", '"': "&quot;", "'": "&apos;"}
+    def dec(s):
+        return "".join("&#%d;" % ord(c) if c in "&<>\"'\r\n\t" else c for c in s)
+    def hexa(s):
+        return "".join("&#x%X;" % ord(c) if (c in "&<>\"'\r\n\t" or ord(c) > 126) else c for c in s)
+    def padded(s):
+        return "".join("&#0%d;" % ord(c) if c in "&<>\"'" else "&#xd;" if c == "\r" else "&#x9;" if c == "\t" else "&#xA;" if c == "\n" else c for c in s)
+    def mixed(s):
+        return "".join(named.get(c, "&#13;" if c == "\r" else "&#9;" if c == "\t" else "&#10;" if c == "\n" else c) for c in s)
+    return [dec, hexa, padded, mixed]
+
+
+def check_plain_table():
+    src = open(os.path.join(vlib.SPEC, "TextOps.tla")).read()
+    tab = src[src.index("PlainTable == {"):src.index("HexVal(c) ==")]
+    pairs = {(m.group(1).replace('\\"', '"'), int(m.group(2))) for m in re.finditer(r'<<"((?:\\"|[^"]))", (\d+)>>', tab)}
+    if pairs != {(c, ord(c)) for c in PLAIN}:
+        raise vlib.MachineryError("harness PLAIN and TextOps!PlainTable disagree: %r" % sorted(pairs ^ {(c, ord(c)) for c in PLAIN}))
+
+
 def judge(ctx, name, evs):
     slim = [{k: v for k, v in e.items() if k not in ("text", "raw")} for e in evs]
     vs, stats = vlib.judge_events(os.path.join(ctx.workdir, name), "TextTrace", "TextTrace.cfg", slim, chunk=4000)
@@ -109,6 +143,7 @@ def judge(ctx, name, evs):
 def run(ctx):
     tu, etree = _tu()
     tier = ctx.tier
+    check_plain_table()
     dump = os.path.join(ctx.workdir, "e1", "states")
     ctx.run_tlc("e1", "TextFmtMC", "TextFmt_%s.cfg" % tier, dump=dump)
     evs = []
@@ -148,6 +183,11 @@ def run(ctx):
         sec = rng.choice([rng.randint(0, 70), rng.randint(0, 4000), rng.randint(0, 10 ** 7), rng.choice([59, 3599, 35999, 359999]) + rng.randint(0, 1)])
         ms = rng.choice([0, 499, 500, 501, 999, rng.randint(0, 999)])
         evs.append(dur_event(tu, sec, ms))
+    # durations that are not whole milliseconds (seconds as floats; the millisecond form gets the same float times 1000)
+    for _ in range(nd // 3):
+        sec = rng.choice([rng.randint(0, 12), 9, 9, 59, 3599, 35999, rng.randint(0, 10 ** 7)])
+        us = rng.choice([rng.randint(0, 999) * 1000 + rng.choice([60, 440, 560, 940]), 999600, 999940, 499900, 500100, 400, 999440])
+        evs.append(dur_event_us(tu, sec, us))
     # V: random strings of XML-legal characters, incl. pre-escaped text, mixed quotes, non-ASCII, whitespace controls
     ns = 3000 if tier == "quick" else 80000
     frag = ["&", "<", ">", '"', "'", "&amp;", "&lt;", "&gt;", "&quot;", "&apos;", "&#38;", "&#x3c;", "amp;", "lt", ";", "#", " ", "a", "Tom", "é", "中", "\U0001F600",
@@ -155,19 +195,32 @@ def run(ctx):
     for _ in range(ns):
         s = "".join(rng.choice(frag) for _k in range(rng.randint(0, 8)))
         evs.append(esc_event(tu, etree, s))
+    # soundness self-test: other correct escapers must be accepted by the specification
+    alts = []
+    for k in range(400 if tier == "quick" else 4000):
+        s = "".join(rng.choice(frag) for _k in range(rng.randint(1, 8)))
+        for fn in alt_escapers():
+            o = fn(s)
+            perr, pe, pd, ps = parse_back(etree, o)
+            alts.append({"k": "esc", "s": toks(s), "o": toks(o), "perr": perr, "pe": toks(pe), "pd": toks(pd), "ps": toks(ps), "text": s, "raw": o})
+    va = judge(ctx, "alt", alts)
+    off = [(e["text"], e["raw"], v) for e, v in zip(alts, va) if v != "ok"]
+    if off:
+        raise vlib.MachineryError("TextOps rejects a correct escaper (specification too strict): %r" % (off[0],))
+    ctx.stage("alt_escapers", kind="specification self-test", correct_alternative_outputs_accepted=len(alts))
     vs = judge(ctx, "v", evs)
     rej = 0
     for e, v in zip(evs, vs):
         if e["k"] == "esc":
             ctx.count(("esc", e["text"]))
         else:
-            ctx.count(("dur", e["sec"], e["ms"]))
+            ctx.count(("dur", e["sec"], e.get("us", e["ms"] * 1000)))
         if v != "ok":
             rej += 1
             if e["k"] == "esc":
                 ctx.violation(v, {"mode": "V", "k": "esc", "text": e["text"]}, "round trip", e["raw"], input_class=known_class(e, v))
             else:
-                ctx.violation(v, {"mode": "V", "k": "dur", "sec": e["sec"], "ms": e["ms"]}, "JudgeDuration", e["raw"])
+                ctx.violation(v, dict({"mode": "V", "k": "dur", "sec": e["sec"], "ms": e["ms"]}, **({"us": e["us"]} if "us" in e else {})), "JudgeDuration", e["raw"])
     ctx.traces += len(evs)
     ctx.sample({"mode": "V", "text": evs[-1]["text"], "escaped": evs[-1]["raw"], "verdict": vs[-1]})
     d0 = next(e for e in evs if e["k"] == "dur" and e["sec"] > 3600)
@@ -188,7 +241,7 @@ def run(ctx):
 def replay(rec):
     tu, etree = _tu()
     c = rec["case"]
-    ev = esc_event(tu, etree, c["text"]) if c["k"] == "esc" else dur_event(tu, c["sec"], c["ms"])
+    ev = esc_event(tu, etree, c["text"]) if c["k"] == "esc" else dur_event_us(tu, c["sec"], c["us"]) if "us" in c else dur_event(tu, c["sec"], c["ms"])
     ctx = vlib.Ctx("C20", "quick", 0, LEVEL, fresh=False)
     v = judge(ctx, "replay", [ev])[0]
     return v == "ok", {"verdict": v, "raw": ev["raw"]}
